@@ -342,3 +342,5 @@ func CanonResult(v any) string {
 }
 
 var _ = structs.RegisterRequestType
+
+func setWatchLimit(n int) { state.VerifSetWatchLimit(n) }
